@@ -7,7 +7,9 @@ package neorpc
 
 import (
 	"encoding/json"
+	"errors"
 	"fmt"
+	"slices"
 	"strings"
 
 	"github.com/nspcc-dev/neo-go/pkg/core/transaction"
@@ -120,6 +122,9 @@ func (s *SignerWithWitness) UnmarshalJSON(data []byte) error {
 	}
 	if len(aux.AllowedGroups) > transaction.MaxAttributes {
 		return fmt.Errorf("invalid number of AllowedGroups: got %d, allowed %d at max", len(aux.AllowedGroups), transaction.MaxAttributes)
+	}
+	if slices.Contains(aux.AllowedGroups, nil) {
+		return errors.New("null in the list of AllowedGroups")
 	}
 	if len(aux.Rules) > transaction.MaxAttributes {
 		return fmt.Errorf("invalid number of Rules: got %d, allowed %d at max", len(aux.Rules), transaction.MaxAttributes)
